@@ -7,9 +7,14 @@ CONSTANT MaxItersBound
 VARIABLES maxit, it, res, conv, outcome
 ivars == <<maxit, it, res, conv, outcome>>
 IInit == /\ maxit \in 1..MaxItersBound /\ it = 0 /\ res = "-" /\ conv = FALSE /\ outcome = "running"
-\* one flight; its residual is small or large
+\* one flight; its residual (leftover trip fuel relative to the trip fuel) is within the tolerance ("small") or
+\* outside it on either side: "over" = fuel left over (the guess was an over-estimate, the usual case), "under" =
+\* more fuel burned than loaded (an under-estimate: negative residual, e.g. a fuel of low heating value).
+\* The test is on the magnitude: both signs are equally far from converged.
+Residuals == {"small", "over", "under"}
+Large(r) == r \in {"over", "under"}
 FlyIter(r) == /\ outcome = "running" /\ ~conv
-              /\ (it = 0 \/ (res = "large" /\ it < maxit))
+              /\ (it = 0 \/ (Large(res) /\ it < maxit))
               /\ it' = it + 1 /\ res' = r
               /\ UNCHANGED <<maxit, conv, outcome>>
 \* the convergence test on the latest flight (only inside the loop, i.e. while
@@ -17,10 +22,10 @@ FlyIter(r) == /\ outcome = "running" /\ ~conv
 Test == /\ outcome = "running" /\ ~conv /\ it >= 1 /\ it < maxit /\ res = "small"
         /\ conv' = TRUE /\ UNCHANGED <<maxit, it, res, outcome>>
 Finish == /\ outcome = "running"
-          /\ (conv \/ it >= maxit \/ (it >= 1 /\ res = "large" /\ it >= maxit))
+          /\ (conv \/ it >= maxit \/ (it >= 1 /\ Large(res) /\ it >= maxit))
           /\ outcome' = IF conv THEN "returned" ELSE "nonconv"
           /\ UNCHANGED <<maxit, it, res, conv>>
-INext == (\E r \in {"small", "large"} : FlyIter(r)) \/ Test \/ Finish
+INext == (\E r \in Residuals : FlyIter(r)) \/ Test \/ Finish
 ISpec == IInit /\ [][INext]_ivars
 ReturnedImpliesSmall == outcome = "returned" => res = "small"
 BoundedFlights == it <= maxit
